@@ -716,6 +716,10 @@ class Weaver:
         log = []
         where = f'{rel} :: {d.kind} {name}'
         h2 = rw_r9(h2, log, where)
+        only = None
+        mo = re.search(r'only\(([^)]*)\)', d.parts[1])
+        if mo:
+            only = {x.strip() for x in mo.group(1).split(',') if x.strip()}
         if d.kind == 'enum':
             body = toks[it.body_lo:it.hi + 1]
             txt = 'pub ' + render(h2) + ' ' + render(rtok.strip_attrs(body))
@@ -743,6 +747,10 @@ class Weaver:
                 if f and f[0].text == '(':
                     f = f[match_close(f, 0) + 1:]
                 f = rw_r9(f, log, where)
+                if only is not None and f and f[0].text not in only:
+                    log.append({'rule': 'R13', 'what': f'struct projection: field `{f[0].text}` dropped (type not nameable in the '
+                                'single-file unit; no extracted function mentions it)', 'where': where})
+                    continue
                 ftxt.append('    pub ' + render(f) + ',')
             txt = 'pub ' + render(h2) + ' {\n' + '\n'.join(ftxt) + '\n}'
         else:
@@ -773,7 +781,7 @@ class Weaver:
             tail = [t for t in h2[pe + 1:] if t.text != ';']
             txt = 'pub ' + render(h2[:pi]) + '(' + ', '.join(fs) + ')' + (' ' + render(tail) if tail else '') + ';'
         log.append({'rule': 'R2', 'what': 'fields/visibility widened to pub; derives dropped', 'where': where})
-        extra = d.parts[1][len(name):].strip()
+        extra = re.sub(r'only\([^)]*\)', '', d.parts[1][len(name):]).strip()
         if extra.startswith('derive'):
             self.emit(f'#[{extra}]')
         self.emit(txt)
